@@ -605,19 +605,19 @@ func recsOf(sl obiseq.BioSequenceSlice) []c02Rec {
 }
 
 type c02Event struct {
-	Op     string    `json:"op"`
-	Fmt    string    `json:"fmt"`
-	Parser string    `json:"parser"`
-	Si     int       `json:"si"`
-	So     int       `json:"so"`
-	Fatal  int       `json:"fatal"`
-	Why    string    `json:"why"`
-	R      []c02Rec  `json:"r"`
-	T0     [][]int   `json:"t0"`
-	R1     []c02Rec  `json:"r1"`
-	T1     [][]int   `json:"t1"`
-	R2     []c02Rec  `json:"r2"`
-	T2     [][]int   `json:"t2"`
+	Op     string   `json:"op"`
+	Fmt    string   `json:"fmt"`
+	Parser string   `json:"parser"`
+	Si     int      `json:"si"`
+	So     int      `json:"so"`
+	Fatal  int      `json:"fatal"`
+	Why    string   `json:"why"`
+	R      []c02Rec `json:"r"`
+	T0     [][]int  `json:"t0"`
+	R1     []c02Rec `json:"r1"`
+	T1     [][]int  `json:"t1"`
+	R2     []c02Rec `json:"r2"`
+	T2     [][]int  `json:"t2"`
 	// hdr events
 	Line   []int  `json:"line"`
 	Def    []int  `json:"def"`
@@ -638,7 +638,14 @@ func newEvent(op string) *c02Event {
 
 // ---- generators
 
-type gen struct{ r interface{ Intn(int) int; Float64() float64; NormFloat64() float64; Int63() int64 } }
+type gen struct {
+	r interface {
+		Intn(int) int
+		Float64() float64
+		NormFloat64() float64
+		Int63() int64
+	}
+}
 
 var specialRunes = []rune{'"', '\\', '{', '}', ';', '=', '>', '@', ' ', ':', ',', '[', ']', '\'', '/', '+', '\n', '\t', '\r', '<', '&'}
 var otherRunes = []rune{'a', 'b', 'Z', '0', '9', '_', '-', '.', 'é', 'ß', 'Ω', '日', '本', '😀', '𝄞', '\u2028', '\u2029', '\u00a0', '\ufeff', '\u0001', '\u007f', '\u0000', '\u0008', '\u000c', '\u001f', '\ufffd', '\uffff'}
